@@ -118,6 +118,33 @@ func (w *World) ApplyEnv(ctx sdk.Context, env string) error {
 		msg = &cctptypes.MsgPauseBurningAndMinting{From: w.CctpOwner.String()}
 	case "hyp-unroll-1":
 		msg = &warptypes.MsgUnrollRemoteRouter{Owner: w.Alice.String(), TokenId: w.TokenT0, ReceiverDomain: 1}
+	case "bulk-pause-150":
+		// more entries than one default query page (100): 100 IBC channels, then 50 CCTP domains (two messages,
+		// the per-message cap is 100)
+		var a, b []string
+		for i := 0; i < 100; i++ {
+			a = append(a, fmt.Sprintf("channel-%d", 1000+i))
+		}
+		for i := 0; i < 50; i++ {
+			b = append(b, fmt.Sprint(2000+i))
+		}
+		for _, op := range []Op{w.OpPauseCC("PROTOCOL_IBC", a...), w.OpPauseCC("PROTOCOL_CCTP", b...)} {
+			if r := w.Apply(ctx, op); !r.Succeeded() {
+				return fmt.Errorf("bulk pause failed: %v", r.Msg)
+			}
+		}
+		return nil
+	case "bulk-stats-130":
+		for i := 0; i < 130; i++ {
+			u := statUpdate{1, fmt.Sprintf("channel-%d", i%7), fmt.Sprintf("cctp:%d", 3000+i), "uusdc", int64(10 + i)}
+			if i%3 == 1 {
+				u.Fwd = fmt.Sprintf("hyp:%d", 3000+i)
+			}
+			if err := w.applyStatUpdate(ctx, u); err != nil {
+				return err
+			}
+		}
+		return nil
 	case "genesis-roundtrip":
 		return w.applyGenesisEnv(ctx, env)
 	case "seed-stats-top":
